@@ -108,7 +108,8 @@ def gen_leaf(rng, t, typed=True):
         r = rng.random()
         if r < 0.5:
             lo = rng.choice([-5, 0, 1, 3, 10])
-            s[rng.choice(["minimum", "exclusiveMinimum"])] = lo if t == "integer" else rng.choice([lo, lo + 0.5])
+            # (for numbers also bounds that are no binary fractions: 0.1, 3.3 ... - they differ from their own decimal text as floats)
+            s[rng.choice(["minimum", "exclusiveMinimum"])] = lo if t == "integer" else rng.choice([lo, lo + 0.5, lo + 0.1, lo + 0.3])
             if rng.random() < 0.6:
                 hk = rng.choice(["maximum", "exclusiveMaximum"])
                 gap = rng.choice([1, 2, 5, 100])
@@ -135,8 +136,8 @@ def gen_leaf(rng, t, typed=True):
             s["enum"] = rng.sample([0, 1, 2, 3, 5, 10, -1], rng.choice([1, 2, 3]))
         elif r < 0.9:
             s["const"] = rng.choice([0, 1, 7])
-        if t == "number" and typed and rng.random() < 0.2:
-            s["format"] = rng.choice(["float", "decimal"])
+        if t == "number" and typed and rng.random() < 0.3:
+            s["format"] = rng.choice(["float", "decimal", "decimal"])
     elif t == "string":
         r = rng.random()
         if r < 0.3:
